@@ -58,6 +58,10 @@ def floor_rule(chk, F):
         x = D.total(me)
         s = D.total(args[1])
         Fs = [t[1] for t in st.trace if isinstance(t, tuple) and t and t[0] == "from_total"]
+        if len(Fs) == 0 and getattr(st, "ret", None) is not None and _try_total(D, st.ret) is not None:
+            # a path that returns a duration built without the constructor (e.g. an early `return Self::ZERO`): the obligations
+            # below are stated on the signed count of what is returned, so take it from the returned value itself
+            Fs = [_try_total(D, st.ret)]
         if len(Fs) != 1:
             chk.ob(rule, "Duration::floor", "result=from_total_nanoseconds(F)", False, detail="%d calls" % len(Fs))
             continue
@@ -100,6 +104,13 @@ def _agg(agg, key, ok, st, eng, extra=None):
         a[2] = d
 
 
+def _try_total(D, v):
+    try:
+        return D.total(v)
+    except Exception:
+        return None
+
+
 def _multiple(eng, D, st, Fv, x, s, cons):
     """F == num - R for a remainder atom R = num mod den with num == x and den == +/-s."""
     if D.implies(st, Fv, "==", cons):
@@ -109,7 +120,10 @@ def _multiple(eng, D, st, Fv, x, s, cons):
             num, den = a.defn
             den_l = den if isinstance(den, Lin) else Lin.const(den)
             R = Lin.atom(a)
-            if not D.implies(st, Fv - num + R, "==", cons):
+            # num - (num rem den) is a multiple of den for the truncating and the Euclidean remainder alike, and stays one when a
+            # whole den is added or taken away (the "one step down when negative" form); which side it lands on is the business of
+            # floor<=x and x-floor<|s| above
+            if not any(D.implies(st, f, "==", cons) for f in (Fv - num + R, Fv - num + R + den_l, Fv - num + R - den_l)):
                 continue
             if not D.implies(st, num - x, "==", cons):
                 continue
